@@ -39,7 +39,8 @@ MODES = ["before", "after", "base", "dead"]
 
 @st.composite
 def cases(draw, max_nodes, max_ops):
-    base = draw(regcommon.reg_cases(max_nodes=max_nodes, max_ops=max_ops, faults=False, det_share=25, disturb_last=True))
+    base = draw(regcommon.reg_cases(max_nodes=max_nodes, max_ops=max_ops, faults=False, det_share=25, disturb_last=True,
+                                  alias=True, sread=True))
     base["cut_seed"] = draw(st.integers(0, 2 ** 16))
     base["ops"][-1]["cfg"]["max_errors"] = draw(st.sampled_from([0, 0, None, 2]))
     return base
@@ -71,7 +72,7 @@ def up_to_date_values_ok(w, ft):
     ref = refmodel.Ref(w, registry=True)
     for i in refmodel.entries(spec) - ood:
         nd = spec["nodes"][i]
-        if nd["k"] == "src" and not nd["deps"]:
+        if specs.src_kind(nd) in ("pure", "alias"):
             continue
         try:
             exp = W(ref.raw(nd["deps"][0]["n"])) if nd["k"] == "src" else ref.raw(i)
